@@ -44,7 +44,8 @@ def case_strategy(tier):
                             "elapsed": draw(st.integers(0, 5))})
         pol = draw(st.sampled_from(["EDF", "FIFO", "LSF"]))
         return {"seed": draw(st.integers(0, 999)), "now": now, "cluster": cluster, "profiles": profiles, "graphs": graphs, "running": running,
-                "policy": {"name": pol, "enforce_deadlines": draw(st.booleans()) if pol != "LSF" else False}}
+                "policy": {"name": pol, "enforce_deadlines": draw(st.booleans()) if pol != "LSF" else False,
+                           "preemptive": draw(st.sampled_from([False, False, True])) if pol != "FIFO" else False}}  # FIFO refuses preemption
 
     return s()
 
@@ -63,7 +64,9 @@ def execute(case):
     for p in pools:
         w = p.workers[0]
         cap[p.id] = dict(st_["info"]["workers"][w.id]["capacity"])
-        free0[p.id] = statebuilder.worker_free(w)
+        # a preemptive policy re-plans on an emptied copy of the cluster: the running tasks compete again, with what is
+        # left of their runtime
+        free0[p.id] = dict(cap[p.id]) if case["policy"].get("preemptive") else statebuilder.worker_free(w)
     try:
         placements = policy.schedule(now, st_["workload"], wps)
     except Exception as e:
@@ -127,6 +130,10 @@ def execute(case):
                     return res
     res.nontrivial = len(placed) + len(unplaced) >= 3 and len(unplaced) >= 1 and len(placed) >= 1
     res.classes = [f"policy={pname}", f"unplaced={min(len(unplaced), 3)}"]
+    if case["policy"].get("preemptive"):
+        res.classes.append("preemptive")
+        if any(t.state.name == "RUNNING" for t, _p, _s in placed) or any(t.state.name == "RUNNING" for t in unplaced):
+            res.classes.append("running_task_competes")
     keys = [key(t) for t, _p, _s in placed] + [key(t) for t in unplaced]
     if len(keys) != len(set(keys)):
         res.classes.append("key_tie")
